@@ -131,9 +131,17 @@ Lang(e) == {s \in Universe : Matches(e, s)}
 \* normalisation equals an alternative is accepted although the expression does not match it.
 \* In the model alphabet the only such character is U+00AA, whose NFKD form is "a".
 Nfkd(s) == [i \in DOMAIN s |-> IF s[i] = "ª" THEN "a" ELSE s[i]]
-KF_C17_1(e, s) == /\ e.k = "fold" /\ e.e.k \in {"alt", "raw"} /\ Len(e.e.es) >= 16
+KF_C17_1(e, s) == /\ e.k = "fold" /\ e.e.k \in {"alt", "raw"}
                   /\ \A i \in DOMAIN e.e.es : e.e.es[i].k = "lit"
                   /\ ~Matches(e, s) /\ Matches(e, Nfkd(s))
+\* KF-C17-2: an alternation of single characters of which some are under (?i:) is parsed into one
+\* character class carrying the FoldCase flag; findSetMatches then takes the whole class for
+\* case-insensitive, so case variants of the case-SENSITIVE alternatives are accepted as well.
+OneChar(x)  == x.k = "lit" /\ Len(x.w) = 1
+KF_C17_2(e, s) == /\ e.k \in {"alt", "raw"}
+                  /\ \A i \in DOMAIN e.es : OneChar(e.es[i]) \/ (e.es[i].k = "fold" /\ OneChar(e.es[i].e))
+                  /\ \E i \in DOMAIN e.es : e.es[i].k = "fold"
+                  /\ ~Matches(e, s) /\ Matches(Fold(e), s)
 
 -----------------------------------------------------------------------------
 (* Shape families                                                           *)
@@ -161,7 +169,7 @@ Fam(f) ==
                            \cup {Cat(Fold(L(i)), d) : i \in Few, d \in {DotStar, DotPlus}}                 \* (?i:a).*
     [] f = "suffix"     -> {Cat(d, L(i)) : i \in Few, d \in Dots}
                            \cup {Cat(d, Fold(L(i))) : i \in Few, d \in {DotStar, DotPlus}}
-    [] f = "contains"   -> {CatAll(<<d1, L(i), d2>>) : i \in {1, 3, 6}, d1 \in Dots, d2 \in Dots}           \* .*a.*  .+a.?
+    [] f = "contains"   -> {CatAll(<<d1, L(i), d2>>) : i \in {1, 3, 6, 9}, d1 \in Dots, d2 \in Dots}           \* .*a.*  .+a.?
                            \cup {CatAll(<<DotStar, L(i), DotStar, L(j), DotStar>>) : i \in {1, 2}, j \in {1, 2, 3}}   \* .*a.*b.*
                            \cup {CatAll(<<L(i), DotStar, L(j)>>) : i \in {1, 2}, j \in {1, 2, 3}}           \* a.*b
                            \cup {CatAll(<<L(i), DotStar, L(j), DotStar, L(i)>>) : i \in {1, 2}, j \in {1, 2}}
@@ -184,6 +192,9 @@ Fam(f) ==
 Regexes == UNION {Fam(f) : f \in Families}
 
 -----------------------------------------------------------------------------
+\* alphabet for the cfg files (a cfg string cannot contain a newline)
+Alpha8 == {"a", "b", "A", "B", "é", "É", "ª", "\n"}
+
 Init == /\ re \in Regexes
         /\ done = FALSE
         /\ hist = <<>>
@@ -191,7 +202,8 @@ Eval == /\ ~done
         /\ done' = TRUE
         /\ UNCHANGED re
         /\ hist' = <<[re |-> R(re), lang |-> {Str(s) : s \in Lang(re)}, alphabet |-> Alphabet, maxlen |-> MaxLen,
-                       kf1 |-> {Str(s) : s \in {x \in Universe : KF_C17_1(re, x)}}]>>
+                       kf1 |-> {Str(s) : s \in {x \in Universe : KF_C17_1(re, x)}},
+                       kf2 |-> {Str(s) : s \in {x \in Universe : KF_C17_2(re, x)}}]>>
 Next == Eval
 Spec == Init /\ [][Next]_vars
 
